@@ -756,11 +756,12 @@ EXPECTED = {'isR': {'hard': {'defaults': {'tol': 100}, 'formula': ['and', ['Lt',
                                       'return']},
  'SMUserList.__setitem__': {'hard': {'defaults': {},
                                      'formula': ['ite', ['not', ['Eq', 'expr', 'expr']], ['raise'],
-                                                 ['ite', ['NotEq', 'expr', 'const:1'], ['raise'], ['none']]],
+                                                 ['ite', ['NotEq', 'expr', 'const:1'], ['raise'],
+                                                  ['ite', ['call', 'isinstance', []], ['raise'], ['none']]]],
                                      'callees': []},
                             'fine': ['ite', ['not', ['src', 'type(self) == type(value)']], ['raise'],
-                                     ['ite', ['src', 'len(value) != 1'], ['raise'], ['none']]],
-                            'layout': [['if', ['raise'], []], ['if', ['raise'], []], 'Assign']},
+                                     ['ite', ['src', 'len(value) != 1'], ['raise'], ['ite', ['src', 'isinstance(i, slice)'], ['raise'], ['none']]]],
+                            'layout': [['if', ['raise'], []], ['if', ['raise'], []], ['if', ['raise'], []], 'Assign']},
  'SMUserList.append': {'hard': {'defaults': {},
                                 'formula': ['ite', ['not', ['Eq', 'expr', 'expr']], ['raise'],
                                             ['ite', ['NotEq', 'expr', 'const:1'], ['raise'], ['none']]],
@@ -1165,6 +1166,19 @@ def oracle_pred(ctx):
         accepted('isunittwist', 'unittwist', base.isunittwist(ut), ut)
         ut = base.unittwist(np.r_[ax, 0, 0, 0])
         accepted('isunittwist', 'unittwist(prismatic)', base.isunittwist(ut), ut)
+        ut = base.unittwist(np.r_[ax, rand_unit(rng) * log_uniform(rng, 1e-30, 1e-16)])      # rotational part below the zero threshold
+        accepted('isunittwist', 'unittwist(sub-threshold w)', base.isunittwist(ut), ut)
+        ut = base.unittwist(ut)
+        accepted('isunittwist', 'unittwist(unittwist)', base.isunittwist(ut), ut)
+        # poses made from a sequence of unit quaternions: one valid pose per value
+        uqs = UnitQuaternion([rand_unit(rng, 4) for _ in range(3)])
+        for k_, P in (('UnitQuaternion.SO3()', uqs.SO3()), ('UnitQuaternion.SE3()', uqs.SE3())):
+            ctx.case((k_, i))
+            ctx.count('oracle:complete')
+            okc = len(P) == 3 and all(member('cSO3' if k_.endswith('SO3()') else 'cSE3', el) == 'member' for el in P.data)
+            if not okc:
+                ctx.fail(f'oracle:complete:{k_}:sequence', f"{k_} of 3 unit quaternions does not hold 3 valid poses: {[np.shape(e) for e in P.data]}",
+                         {'inputs_hex': hexes(*uqs.data)})
         accepted('iseye', 'eye', base.iseye(np.eye(3)), np.eye(3))
         accepted('iszerovec', 'zeros', base.iszerovec(np.zeros(3)), np.zeros(3))
         accepted('iszero', '0.0', base.iszero(0.0), [0.0])
@@ -1358,8 +1372,6 @@ def same_data(a, b):
 
 def mut_key(r, act, o, n):
     R, O = OCLS[r].__name__, (OCLS[o].__name__ if o in OCLS else 'ndarray')
-    if o == r and n == 1 and act[0] == 'setslice':
-        return 'mut:setitem:slice-index-spreads-rows'
     return f"mut:{act[0]}:{R}-from-{O}:holds-nonmember"
 
 
